@@ -261,6 +261,12 @@ def run(ctx: Ctx) -> None:
                 rep.ok("C10.R4", f.qname, desc, f.loc(c), nontrivial=False)
     rep.floor("C10.R4", n4, 4)
 
+    # ---- R7: after a failed evaluation the next ones repair what it left ---------------------------------------------------
+    from .c04 import commit_rules
+    rep.rule("C10.R7", "as C04.R1: every evaluation that returns commits its complete path map, also when its blob is already stored: a failed evaluation leaves blobs of "
+                       "completed sub-functions without committed paths, and the next evaluation of such a sub-function must commit its path")
+    commit_rules(ctx, top, "C10.R7")
+
     # ---- R6: markers set on the way to the user's function are released on every exit -------------------------------------
     rep.rule("C10.R6", "a marker put into non-local state (closure / module container) before a call that leads to the user's function, and taken out "
                        "after it, is taken out on the exceptional exit too (try / finally)")
